@@ -112,7 +112,8 @@ def handle (ws : List String) : String :=
       let c ← comp
       let st : State := { host := { stdin, argv } }
       let (o, st', _) := run fuel c st
-      pure (showOutcome o ++ " out=x" ++ ZV.Driver.C06.hex st'.host.output)
+      pure (if st'.unmodelled then "skipped-unmodelled-operation"
+            else showOutcome o ++ " out=x" ++ ZV.Driver.C06.hex st'.host.output)
     match p.run (rest.toArray, 0) with
     | some (s, (a, i)) => if i == a.size then s else "bad-op trailing"
     | none => "bad-op"
